@@ -40,8 +40,18 @@ pub fn cmd_searcher(args: &[String]) {
         let h = if r.chance(1, 2) { r.pick(HAYS).to_string() } else { crate::gen::gen_hay(&mut r, false) };
         cases.push((p, h));
     }
+    let mut skipped = 0u64;
     for (id, (p, h)) in cases.iter().enumerate() {
         let Ok(re) = Regex::new(p) else { continue };
+        // a pattern that explodes on this haystack is skipped (the searcher repeats searches from many positions;
+        // C05 is checked elsewhere): one pass of find_iter under a step budget decides
+        regress::verif::reset_steps(200_000);
+        let pre = std::panic::catch_unwind(std::panic::AssertUnwindSafe(|| re.find_iter(h).count()));
+        regress::verif::reset_steps(u64::MAX);
+        if pre.is_err() {
+            skipped += 1;
+            continue;
+        }
         let bound = 4 * h.len() + 8;
         writeln!(w, "S {} {} {}", id, crate::api_cps_hex(p), hex(h.as_bytes())).unwrap();
         let ms: Vec<String> = re.find_iter(h).map(|m| format!("{} {}", m.start(), m.end())).collect();
@@ -97,4 +107,5 @@ pub fn cmd_searcher(args: &[String]) {
         }
         writeln!(w, "{}", line).unwrap();
     }
+    writeln!(w, "K {}", skipped).unwrap();
 }
